@@ -490,6 +490,16 @@ nni_aio_finish_impl(
 	aio->a_use_expire       = false;
 	skipped_cb              = aio->a_skipped_callback;
 	aio->a_skipped_callback = NULL;
+	if (aio->a_expiring && (skipped_cb == NULL)) {
+		// The expire thread is about to call (or is calling) the
+		// cancel function for this operation.  If the callback ran
+		// now it could start a new operation on this aio, and that
+		// stale cancellation would then hit the new operation.  Let
+		// the expire thread dispatch the callback when it is done.
+		aio->a_expire_done = true;
+		nni_mtx_unlock(&eq->eq_mtx);
+		return;
+	}
 	nni_mtx_unlock(&eq->eq_mtx);
 
 	if (skipped_cb != NULL) {
@@ -713,6 +723,11 @@ nni_aio_expire_loop(void *arg)
 				nni_mtx_lock(mtx);
 			}
 			aio->a_expiring = false;
+			if (aio->a_expire_done) {
+				// completed meanwhile, see nni_aio_finish_impl
+				aio->a_expire_done = false;
+				nni_task_dispatch(&aio->a_task);
+			}
 		}
 		nni_cv_wake(cv);
 	}
